@@ -92,36 +92,44 @@ Definition found := (N * binds * list bytes)%type.     (* handler, params, splat
 Fixpoint first_some {A B} (f : A -> option B) (l : list A) : option B :=
   match l with [] => None | x :: r => match f x with Some y => Some y | None => first_some f r end end.
 
-(* findRoute with the path exhausted: own route first, then every optional child *)
-Fixpoint end_route (fuel : nat) (n : node) (ps : binds) (ss : list bytes) : option found :=
-  match route_of n with
-  | Some h => Some (h, ps, ss)
-  | None =>
-      match fuel with
-      | O => None
-      | S f => first_some (fun name => end_route f (d_opt name n) ps ss) (opt_names n)
-      end
-  end.
-
 Definition max_len (n : node) : nat := fold_left (fun m (e : pattern * N) => Nat.max m (length (fst e))) n 0.
 
-Fixpoint find_route (path : list bytes) (n : node) (ps : binds) (ss : list bytes) : option found :=
-  match path with
-  | [] => end_route (S (max_len n)) n ps ss
-  | s :: rest =>
-      match (match d_fixed s n with [] => None | c => find_route rest c ps ss end) with
-      | Some r => Some r
-      | None =>
-        match first_some (fun name => find_route rest (d_param name n) (ps ++ [(name, s)]) ss) (param_names n) with
+(* SegmentTreeNode::findRoute.  Path exhausted: own route first, then every optional child (absent).  Otherwise, in
+   this order: the fixed child for the segment; every parameter child; every optional child - first with the
+   parameter present (the segment consumed), then ABSENT (the same path handed to the child: fix of the third seeding
+   round - the retry used to pass the path without the segment, so an optional parameter could only be absent at the
+   end of the path); the wildcard child.  The recursion descends the tree: fuel = path length + longest pattern. *)
+Fixpoint find_route_f (fuel : nat) (path : list bytes) (n : node) (ps : binds) (ss : list bytes) : option found :=
+  match fuel with
+  | O => None
+  | S f =>
+    match path with
+    | [] =>
+        match route_of n with
+        | Some h => Some (h, ps, ss)
+        | None => first_some (fun name => find_route_f f [] (d_opt name n) ps ss) (opt_names n)
+        end
+    | s :: rest =>
+        match (match d_fixed s n with [] => None | c => find_route_f f rest c ps ss end) with
         | Some r => Some r
         | None =>
-          match first_some (fun name => find_route rest (d_opt name n) (ps ++ [(name, s)]) ss) (opt_names n) with
+          match first_some (fun name => find_route_f f rest (d_param name n) (ps ++ [(name, s)]) ss) (param_names n) with
           | Some r => Some r
-          | None => match d_splat n with [] => None | c => find_route rest c ps (ss ++ [s]) end
+          | None =>
+            match first_some (fun name =>
+                                match find_route_f f rest (d_opt name n) (ps ++ [(name, s)]) ss with
+                                | Some r => Some r
+                                | None => find_route_f f (s :: rest) (d_opt name n) ps ss
+                                end) (opt_names n) with
+            | Some r => Some r
+            | None => match d_splat n with [] => None | c => find_route_f f rest c ps (ss ++ [s]) end
+            end
           end
         end
-      end
+    end
   end.
+Definition find_route (path : list bytes) (n : node) (ps : binds) (ss : list bytes) : option found :=
+  find_route_f (S (length path + max_len n)) path n ps ss.
 
 (* --- the router: one tree per method --- *)
 Definition table := list (N * node).          (* method index -> tree *)
